@@ -51,6 +51,13 @@ P = [
     ("sibling-reads-what-the-rule-assigns", "F.I < 3", 'F.RS = "1";', "F.I >= 3", "F.I = F.I - 5;"),
     ("sibling-reads-what-the-rule-assigns-mirrored", "F.J >= 3", "F.J = F.J - 5;", "F.J < 3", 'F.R = "2";'),
     ("sibling-reads-an-element-the-rule-writes", "F.Arr[0] < 3", 'F.RS = "1";', "F.Arr[F.In] >= 3", "F.Arr[0] = 0;"),
+    ("receiver-shared-by-two-different-method-calls", "F.P.Double() > 2", 'F.RS = "1";', "F.P.Neg() < 0", "F.P = F.Q;"),
+    ("receiver-shared-by-two-different-method-calls-mirrored", "F.P.Neg() < 0", "F.P = F.Q;", "F.P.Double() > 2", 'F.R = "2";'),
+    ("receiver-shared-by-a-method-call-and-a-member", "F.P.Double() > 2", "F.P = F.Q;", "F.P.V > 1", "F.P = F.Q;"),
+    ("argument-shared-by-two-different-calls", "F.Lin3(F.I + 1, 0, 0) > 0", "F.I = F.I - 5;", "F.Sum(F.I + 1) > 0", "F.I = F.I - 5;"),
+    ("float-constant-beyond-15-significant-digits", "F.X > 0.3", 'F.RS = "1";', "F.X > 0.30000000000000004", 'F.R = "2";'),
+    ("float-constant-next-double-after-one", "F.X > 1.0", 'F.RS = "1";', "F.X > 1.0000000000000002", 'F.R = "2";'),
+    ("same-condition-spelled-differently", "F.X > 1.0", "F.X = F.X - 5.0;", "F.X > 1.00", "F.X = F.X - 5.0;"),
 ]
 go = ['// Code generated by tools/gen_c07.py; DO NOT EDIT.', '', 'package zztier', '', 'var c07Pairs = []string{']
 for n, (tag, c1, a1, c2, a2) in enumerate(P):
